@@ -183,9 +183,10 @@ class Monitor:
         return False
 
 
-def run_case(name, m, t, no_prss, seed, mode):
+def run_case(name, m, t, no_prss, seed, mode, no_barrier=False):
     prog = progs()[name]
-    net = SimNet(m, t, no_prss=no_prss, seed=seed, sched=Scheduler(seed, mode), max_steps=1_000_000)
+    net = SimNet(m, t, no_prss=no_prss, seed=seed, sched=Scheduler(seed, mode), max_steps=1_000_000,
+                 no_barrier=no_barrier)
     with Monitor(net) as mon:
         try:
             res = net.run(prog)
@@ -217,13 +218,15 @@ def run(ctx):
             for k in range(ctx.scale(6, 60)):
                 seed = rng.randrange(10**9)
                 mode = MODES[k % 4]
-                net, mon, msg = run_case(name, m, t, no_prss, seed, mode)
-                ctx.case((name, m, t, no_prss, seed), nontrivial=mon.nontrivial)
+                no_barrier = (k % 3 == 2)   # option --no-barrier: barriers are no-ops, shutdown must still wait
+                net, mon, msg = run_case(name, m, t, no_prss, seed, mode, no_barrier)
+                ctx.case((name, m, t, no_prss, seed, no_barrier), nontrivial=mon.nontrivial)
+                ctx.count('no_barrier' if no_barrier else 'barriers-enabled')
                 ctx.count('program:' + name)
                 ctx.count(f'cfg:m{m}t{t}{"np" if no_prss else ""}')
                 if msg:
                     ctx.violation('C35: ' + msg, {'kind': 'c35', 'program': name, 'm': m, 't': t, 'no_prss': no_prss,
-                                                  'seed': seed, 'mode': mode})
+                                                  'seed': seed, 'mode': mode, 'no_barrier': no_barrier})
                     return
                 if k == 0:
                     for p in range(m):
@@ -247,13 +250,15 @@ def search(ctx):
         name = names[k % len(names)]
         seed = rng.randrange(10**9)
         mode = rng.choice(MODES)
-        net, mon, msg = run_case(name, m, t, no_prss, seed, mode)
+        nb = rng.random() < 0.4
+        net, mon, msg = run_case(name, m, t, no_prss, seed, mode, nb)
         if msg:
             ctx.violation('C35: ' + msg, {'kind': 'c35', 'program': name, 'm': m, 't': t, 'no_prss': no_prss,
-                                          'seed': seed, 'mode': mode})
+                                          'seed': seed, 'mode': mode, 'no_barrier': nb})
             return
 
 
 def replay(ctx, data):
-    net, mon, msg = run_case(data['program'], data['m'], data['t'], data['no_prss'], data['seed'], data['mode'])
+    net, mon, msg = run_case(data['program'], data['m'], data['t'], data['no_prss'], data['seed'], data['mode'],
+                             data.get('no_barrier', False))
     return msg is None, msg or 'ok'
